@@ -13,6 +13,7 @@ def tasks(tier):
     for D in ([2] if tier == 'quick' else [1, 2, 3]):
         for d in range(D):
             T.append(Task('CubicSplineND', 'computeLUAndSolve', 1, {'DIM': D}, gen_options={'focus': d}, label='DIM=%d,coord=%d' % (D, d)))
+            T.append(Task('CubicSplineND', 'solveSpline', 0, {'DIM': D}, gen_options={'focus': d}, label='DIM=%d,coord=%d' % (D, d)))
     return T
 
 
